@@ -94,6 +94,11 @@ class HierDictDocument(DictDocument):
 
             class_name = self.get_class_name(body_class)
             if self.ignore_wrappers:
+                if isinstance(class_name, bytes) and not (class_name in doc):
+                    # the method name can also arrive as a unicode key (e.g.
+                    # msgpack str), just like member names do.
+                    class_name = class_name.decode('utf8')
+
                 doc = doc.get(class_name, None)
 
             if doc is None:
